@@ -624,6 +624,12 @@ Theorem reach_best k st : Reach k st -> BestInv st.
 Proof. induction 1; [apply best_init|eapply best_step; eauto]. Qed.
 
 
+(* a worker only dies on a failing node solver *)
+Lemma failed_step b st st' : Forall (fun n => f n = PanicR) (failed st) -> Step b st st' -> Forall (fun n => f n = PanicR) (failed st').
+Proof. intros F S. destruct S; cbn; auto. destruct (newbest st s); cbn; auto. Qed.
+Theorem reach_failed k st : Reach k st -> Forall (fun n => f n = PanicR) (failed st).
+Proof. induction 1; [constructor|eapply failed_step; eauto]. Qed.
+
 (* ---------- termination: a linear measure ---------- *)
 Section Termination.
 Variable h : node -> nat.
